@@ -107,6 +107,16 @@ def budget(draw, min_sources=1, max_sources=4, allow_broken=True, rules_kinds=('
                 # a column that is not one of the documented numeric ones reaches the rules as TEXT, also when its cells look like numbers (check / order numbers)
                 extra.append({'name': f'Supp text {nm}', 'match': ['anygen', ['cmp', ['attr', 'r', 'qty'], [['==', ['str', str(good[0]['qty'])]]]], 'r', ['name', nm], None],
                               'category': '', 'subcategory': '', 'merchant': None, 'priority': None, 'tags': [f'qty-text-{nm}'], 'lets': [], 'fields': []})
+        # the same look-up through a TOP-LEVEL VARIABLE (supplemental sources are available to every rule expression, variables included)
+        supp_vars = []
+        for nm, rows_ in sorted((supp or {}).items()):
+            good = [r for r in rows_ if any(str(v).strip() for v in r.values())]
+            if good and draw(st.booleans()):
+                supp_vars.append([f'seen_{nm}', ['anygen', ['cmp', ['attr', 'r', 'amount'], [['==', ['num', good[0]['amount']]]]], 'r', ['name', nm], None]])
+                extra.append({'name': f'Supp var {nm}', 'match': ['var', f'seen_{nm}'], 'category': '', 'subcategory': '', 'merchant': None, 'priority': None, 'tags': [f'var-has-{nm}'],
+                              'lets': [], 'fields': []})
+        if supp_vars:
+            rf = dict(rf, vars=list(rf.get('vars', [])) + supp_vars)
         # a tag-only witness of the amount the rules see: it must be the amount AFTER the source's sign setting (the one the report shows)
         if draw(st.integers(0, 3)) > 0:
             extra.append({'name': 'Sign Witness', 'match': ['cmp', ['name', 'amount'], [['<', ['num', 0]]]], 'category': '', 'subcategory': '', 'merchant': None, 'priority': None,
@@ -249,6 +259,15 @@ def compose(b, mat):
         if row_mismatch is None and [fact(t) for t in got] != [fact(t) for t in alone]:
             pairs = [(fact(x), fact(y)) for x, y in zip(got, alone) if fact(x) != fact(y)]
             row_mismatch = {'source': src['name'], 'in_file': pairs[0][0] if pairs else len(got), 'alone': pairs[0][1] if pairs else len(alone)}
+        if row_mismatch is None and b.get('rf'):
+            # by construction every transaction finds the supplemental row the witness rules look for - directly and through a top-level variable
+            for r_ in b['rf']['rules']:
+                if r_['name'].startswith(('Supp var ', 'Supp ')) and not r_['name'].startswith('Supp text') and r_['tags'] and r_['name'].split()[-1].lower() in supp:
+                    lacking = [t for t in got if r_['tags'][0] not in t['tags']]
+                    if lacking:
+                        row_mismatch = {'source': src['name'], 'in_file': fact(lacking[0]),
+                                        'alone': f'rule [{r_["name"]}] finds a row of the supplemental source for EVERY transaction (tag {r_["tags"][0]}) - it was not applied here'}
+                        break
         if row_mismatch is None and b.get('rf') and any(r['name'] == 'Sign Witness' for r in b['rf']['rules']):
             for t in got:
                 if (SIGN_TAG in t['tags']) != (t['amount'] < 0):
